@@ -44,9 +44,16 @@ type c19Subject struct {
 	ops   []c19Op
 }
 
+// sum summarises a result and then overwrites it (and its spare capacity): what an operation
+// returns belongs to the caller; if it is the object's own storage, the next call shows it.
 func sum(b []byte) string {
 	h := sha256.Sum256(b)
-	return fmt.Sprintf("len=%d sha256=%x", len(b), h[:12])
+	s := fmt.Sprintf("len=%d sha256=%x", len(b), h[:12])
+	b = b[:cap(b)]
+	for i := range b {
+		b[i] ^= 0xa5
+	}
+	return s
 }
 
 func c19Image() []byte {
@@ -76,7 +83,7 @@ func c19Subjects() []c19Subject {
 		c19Signed = p.Bytes()
 	}
 	imgOps := []c19Op{
-		{"Hash", func(o any) string { return fmt.Sprintf("%x", o.(*authenticode.PECOFFBinary).Hash(crypto.SHA256)) }},
+		{"Hash", func(o any) string { return sum(o.(*authenticode.PECOFFBinary).Hash(crypto.SHA256)) }},
 		{"Bytes", func(o any) string { return sum(o.(*authenticode.PECOFFBinary).Bytes()) }},
 		{"Open+ReadAll", func(o any) string {
 			b, err := io.ReadAll(o.(*authenticode.PECOFFBinary).Open())
@@ -223,11 +230,15 @@ func c19Subjects() []c19Subject {
 		}, func(o any) string { return deepdump.Dump(o) }, dbOps},
 		// a database holding lists a caller put together by hand: one whose ListSize field was never
 		// brought up to date, one with a signature header. Encoding is read-only whatever the fields say.
-		{"signature database with hand-built lists (stale ListSize, signature header)", func() any {
+		{"signature database with hand-built lists (PEM text as X.509 data, stale ListSize, signature header)", func() any {
 			db, err := signature.ReadSignatureDatabase(bytes.NewReader(dbBytes))
 			if err != nil {
 				panic(err)
 			}
+			pemData := keys.CertPEM(keys.C(2))
+			pemList := &signature.SignatureList{SignatureType: signature.CERT_X509_GUID, Size: uint32(16 + len(pemData)), ListSize: uint32(28 + 16 + len(pemData)), SignatureHeader: []byte{},
+				Signatures: []signature.SignatureData{{Owner: unwire(ownerB), Data: pemData}}}
+			db = append(db, pemList)
 			stale := &signature.SignatureList{SignatureType: signature.CERT_SHA256_GUID, ListSize: 28, Size: 48, SignatureHeader: []byte{},
 				Signatures: []signature.SignatureData{{Owner: unwire(ownerA), Data: fill(32, 0x71)}, {Owner: unwire(ownerB), Data: fill(32, 0x72)}}}
 			hdr := &signature.SignatureList{SignatureType: signature.CERT_RSA2048_GUID, HeaderSize: 4, SignatureHeader: []byte{1, 2, 3, 4}, Size: 16 + 256, ListSize: 28 + 4 + 16 + 256,
